@@ -11,7 +11,7 @@ PROP = "C03"
 COQ = dict(imports=["Model.Heads", "Spec.C03"], in_ty="c03_in", out_ty="c03_out",
            corr="corr_C03", decide="check_C03", model="model_C03")
 THEOREMS = ["C03_decider_sound", "C03_step", "C03_invariant", "C03_endpoints", "C03_model_from_empty", "C03_trace",
-            "C03_model_transitions"]
+            "C03_model_transitions", "C03_upgrade_command", "C03_downgrade_command", "C03_plans_are_valid"]
 TRUSTED = [
     "SQLite + SQLAlchemy execute the three bookkeeping statements (INSERT / DELETE..WHERE / UPDATE..WHERE) as the "
     "list model says; their matched-row counts are observed (cursor.rowcount) and compared on every statement",
